@@ -50,3 +50,48 @@ static Reg r_bitr("bitr", [](std::vector<std::string> const& a) -> std::string {
     }
     return out;
 });
+
+// ---- public API histories that end in a linearized write (QPDF.hh / QPDFWriter.hh only) ----
+#include <qpdf/QPDF.hh>
+#include <qpdf/QPDFWriter.hh>
+
+// linapi <in> <out> <ops|-> <d|g|p> : ops (comma separated) are run on ONE QPDF object before the final write:
+//   check = checkLinearization() (when isLinearized())   islin = isLinearized()   pages = getAllPages()   push = pushInheritedAttributesToPage()
+//   wplain = plain write to memory   wlind / wling = linearized write to memory with object streams disabled / generated
+// then a linearized write (static id, object streams disable / generate / preserve) to <out>.  "ok" or "exc:<what>".
+static Reg r_linapi("linapi", [](std::vector<std::string> const& a) -> std::string {
+    try {
+        QPDF q;
+        q.setSuppressWarnings(true);
+        q.processFile(a.at(0).c_str());
+        auto mode = [](std::string const& m) { return m == "g" ? qpdf_o_generate : m == "p" ? qpdf_o_preserve : qpdf_o_disable; };
+        std::stringstream ss(a.at(2));
+        std::string op;
+        while (a.at(2) != "-" && std::getline(ss, op, ',')) {
+            if (op == "check") { if (q.isLinearized()) { (void)q.checkLinearization(); } }
+            else if (op == "islin") { (void)q.isLinearized(); }
+            else if (op == "pages") { (void)q.getAllPages(); }
+            else if (op == "push") { q.pushInheritedAttributesToPage(); }
+            else if (op == "wplain" || op == "wlind" || op == "wling") {
+                QPDFWriter w(q);
+                w.setOutputMemory();
+                w.setStaticID(true);
+                if (op != "wplain") {
+                    w.setLinearization(true);
+                    w.setObjectStreamMode(op == "wling" ? qpdf_o_generate : qpdf_o_disable);
+                }
+                w.write();
+            } else { return "?op"; }
+        }
+        QPDFWriter w(q, a.at(1).c_str());
+        w.setStaticID(true);
+        w.setLinearization(true);
+        w.setObjectStreamMode(mode(a.at(3)));
+        w.write();
+        return "ok";
+    } catch (std::exception const& e) {
+        std::string s = e.what();
+        for (auto& c: s) { if (c == '\n' || c == ' ') c = '_'; }
+        return "exc:" + s;
+    }
+});
